@@ -30,6 +30,7 @@ EP == [
   tridiagonalize |-> {"square", "hermitian", "min2"},
   quaternion_eigendecomposition |-> {"square", "hermitian"},
   quaternion_eigenvalues |-> {"square", "hermitian"},
+  quaternion_eigenvectors |-> {"square", "hermitian"},
   hessenbergize |-> {"square"},
   quaternion_schur |-> {"square"},
   quaternion_schur_pure |-> {"square"},
